@@ -55,8 +55,9 @@ def run(ctx):
     rep.notes['trusted_base'] = ['python ast', 'ndverif abstract interpreter, data-dependence domain and numpy summaries']
 
 
-def one(ctx, core, shape, method, n, order, full_output):
+def one(ctx, core, shape, method, n, order, full_output, rule_as=None):
     rep = ctx.rep
+    rid = (lambda r: rule_as) if rule_as else (lambda r: r)       # another property's check may file the results under its own rule
     transposed = isinstance(shape, str)
     if transposed:
         base_shape = tuple(int(v) for v in shape[2:-1].split(','))[::-1]      # a transposed (Fortran ordered) view
@@ -103,7 +104,7 @@ def one(ctx, core, shape, method, n, order, full_output):
     for decisions, res, exc in ex.paths:
         path = ', '.join('%s=%s' % (d[1], d[0]) for d in decisions) or 'straight'
         if exc is not None:
-            rep.violation('R-SHAPE', construct, where, {'raises': exc.exc_name, 'message': exc.msg[:100], 'path': path},
+            rep.violation(rid('R-SHAPE'), construct, where, {'raises': exc.exc_name, 'message': exc.msg[:100], 'path': path},
                           'an elementwise f on an array x does not raise', label, key='raises %s' % exc.exc_name)
             continue
         value, calls = res
@@ -117,7 +118,7 @@ def one(ctx, core, shape, method, n, order, full_output):
         # (info.index is a flat index per column and is not covered by the property)
         bad_shape = {k: getattr(v, 'shape', ()) for k, v in fields.items()
                      if k != 'index' and (getattr(v, 'shape', ()) if isinstance(v, Arr) else ()) != tuple(shape)}
-        rep.check(not bad_shape, 'R-SHAPE', construct, where,
+        rep.check(not bad_shape, rid('R-SHAPE'), construct, where,
                   {'x_shape': list(shape), 'field_shapes': {k: list(getattr(v, 'shape', ())) for k, v in fields.items()},
                    'path': path}, 'every returned field has the shape of x', label, key='shape')
         # data dependence
@@ -131,13 +132,13 @@ def one(ctx, core, shape, method, n, order, full_output):
                 foreign = {x for x in t if (x[0] == 'x' and x[1] != c) or '-call' in str(x[0])}
                 if foreign:
                     bad.append('%s[%d] depends on %s' % (nm, c, sorted(foreign)))
-        rep.check(not bad, 'R-COLSEP', construct, where,
+        rep.check(not bad, rid('R-COLSEP'), construct, where,
                   {'violations': bad[:4], 'path': path, 'sample': repr((fields['derivative'].items() if isinstance(fields['derivative'], Arr) else [fields['derivative']])[:2])},
                   'element c depends only on x[c] (and the call arguments)', label, key='colsep')
         # forwarding
         wrong = [i for i, c in enumerate(calls) if not (len(c['args']) == 1 and c['args'][0] is marker and
                                                          list(c['kwds']) == ['a'] and c['kwds']['a'] is kwmarker)]
-        rep.check(calls and not wrong, 'R-FORWARD', construct, where,
+        rep.check(calls and not wrong, rid('R-FORWARD'), construct, where,
                   {'f_calls': len(calls), 'calls_with_wrong_arguments': wrong[:5],
                    'example_site': calls[wrong[0]]['stack'][-2:] if wrong else None, 'path': path},
                   'each call of f gets (x', label, key='forward')
@@ -145,6 +146,6 @@ def one(ctx, core, shape, method, n, order, full_output):
     for (text, where_p), tags in ex.control_predicates().items():
         cols = {t for t in tags if t[0] == 'x'}
         if len(cols) > 1 and text not in CONTROL_EXCEPTIONS:
-            rep.violation('R-COLSEP', construct, where_p, {'predicate': text, 'depends_on_elements': len(cols)},
+            rep.violation(rid('R-COLSEP'), construct, where_p, {'predicate': text, 'depends_on_elements': len(cols)},
                           'no whole-array predicate steers the computation (tabled exceptions: %s)'
                           % sorted(CONTROL_EXCEPTIONS), label, key='control %s' % text)
